@@ -638,8 +638,16 @@ func (r *Run) checkIndex(g *Goroutine, idx Value, it types.Type, n int) int {
 		}
 		return int(i)
 	case *sym.Term:
-		// in range?  unsigned compare covers negatives
-		in := r.C.Ult(idx, r.C.Const(uint64(n), idx.W))
+		// in range?  compare at 64 bits (unsigned compare covers negatives)
+		wide := idx
+		if idx.W < 64 {
+			if intKindOf(it).signed {
+				wide = r.C.SExt(idx, 64)
+			} else {
+				wide = r.C.ZExt(idx, 64)
+			}
+		}
+		in := r.C.Ult(wide, r.C.Const(uint64(n), 64))
 		if !r.Branch(in, r.siteOf(g)) {
 			r.panicRuntime(g, fmt.Sprintf("index out of range [symbolic] with length %d", n))
 		}
